@@ -961,8 +961,8 @@ pub fn run_check(def: &CheckDef, tier: Tier, seed: u64, scale: f64) -> CheckResu
 
         // determinism proof: a sample re-executed in a different process layout
         let det_n = match tier {
-            Tier::Quick => 64.min(n),
-            Tier::Thorough => 512.min(n),
+            Tier::Quick => 256.min(n),
+            Tier::Thorough => 2048.min(n),
         };
         let d = run_batch(scn, seed, tier, 0, det_n, 1.max(jobs / 5), wall_cap);
         let first: BTreeMap<u64, u64> = b.hashes.iter().cloned().collect();
